@@ -96,6 +96,15 @@ DEPENDENT_GROUPS = [
 ]
 
 
+TWINS = [
+    ("gs.mp.expectation_value(2,1)", "gs.mp.expectation_value(1,2)"),
+    ("gs.mps.expectation_value(2,1)", "gs.mps.expectation_value(1,2)"),
+    ("op.mp.operator(2,1)", "op.mp.operator(1,2)"),
+    ("op.re.operator(1,0)", "op.re.operator(0,1)"),
+    ("expr.term_symmetry(sym3,only_contracted)", "expr.term_symmetry(sym3,only_target)"),
+]
+
+
 # ------------------------------------------------------------------------- main
 def run(tier, seed):
     t0 = time.time()
@@ -189,6 +198,23 @@ def run(tier, seed):
                 jobs.append({"kind": "c19", "seed": seed, "run": f"order-{g[0]}-{k}-{shared}",
                              "env": pool[0], "params": dict(DEFAULT_PARAMS, shared=shared),
                              "steps": steps, "ref": ref_for(ref, steps), "timeout": 1200})
+    # argument-permuted twins in every combination of call forms: the same request
+    # written positionally / with keywords in any order is the same request, and a request
+    # whose argument values are a permutation of another's is a different one
+    for a, b in TWINS:
+        if a not in ref or b not in ref:
+            continue
+        for fa in range(5):
+            for fb in range(5):
+                if not thorough and (fa + 2 * fb) % 3 and fa != fb:
+                    continue
+                for x, y, fx, fy in ((a, b, fa, fb), (b, a, fb, fa)):
+                    steps = [{"op": "req", "t": x, "form": fx}, {"op": "req", "t": y, "form": fy},
+                             {"op": "req", "t": x, "form": fy}]
+                    jobs.append({"kind": "c19", "seed": seed,
+                                 "run": f"twins-{x}-{fx}-{y}-{fy}", "env": pool[0],
+                                 "params": DEFAULT_PARAMS, "steps": steps,
+                                 "ref": ref_for(ref, steps), "timeout": 900})
     submit(jobs, "systematic")
     log(f"[C19] systematic histories: {len(jobs)} runs, {time.time() - t0:.0f}s")
 
